@@ -70,6 +70,15 @@ CLAIMS = {
             "not in the default selection. Tied to the code by the translator, a byte-level differential run over every table arm x flags x mtime values, and real runs with a sibling "
             "source that is a file / missing / symlink / directory / FIFO, with and without --check.",
             "Modelled, not verified: the sibling-source side effect (stat, open, futimens on <module>.py) is checked on the real binary by a snapshot oracle, not by a theorem.", "DESIGN.md section 5-C18"),
+    "C15": ("Coq theorems: the byte-level models are functions of content, epoch (and for zip the file's own mtime) only - no environment argument exists; where the code meets something "
+            "environment-dependent: (pyc) with the iteration order of the writer's hash maps as an explicit parameter, any two orders give the same flags, the same reference numbers and the "
+            "same patched buffer (sort key and patch range regenerated from pyc.rs); (zip) the DOS words are the UTC rounding of the epoch for every epoch in range; (javadoc) the date is the "
+            "civil date of floor(epoch/86400); (helper) a replaced file has the original mode and mtime for every environment record (umask, ids, clock universally quantified). Tied to the "
+            "code by processing one tree (dirty files of every default handler, times and dates within a day of the epoch, a pyc with dozens of shared objects) in 19 environments per epoch "
+            "(time zones, locales, umask, relative argument, deep non-ASCII location, other stems, -v, -jN, repeated launches, stripped HOME/PATH, all combined) and requiring bytes, mode, "
+            "mtime, result and exit status identical to the baseline, whose bytes must equal the extracted model's output.",
+            "Modelled, not verified: wall-clock time cannot be set in this sandbox (launches at different moments only); Rust's HashMap is represented by 'any permutation of its entries'.",
+            "DESIGN.md section 5-C15"),
     "C16": ("Coq theorem for ALL lists of --handler items (not only the 2*2^7 subsets): the model of requested_handlers/filter_by_name over the handler table regenerated from HANDLERS "
             "equals the documented selection function (defaults; positive list = exactly the listed, table order; negative list = defaults minus listed; mixed/unknown/empty = error; "
             "strict iff a list was given); make_handlers = the initialisable selected handlers, fatal iff strict and one cannot initialise; an unselected handler is never run. "
